@@ -3,3 +3,4 @@ CONSTANTS
   MaxLen = 4
   MaxDeep = 4
 INVARIANT Emit
+INVARIANT EmitPool
